@@ -297,6 +297,9 @@ func c13Program(cs c13Case) *gen.Program {
 func c13Run(c *core.Ctx, i int) {
 	st := c.State.(*c13State)
 	if i >= len(st.calls)+200 {
+		if (i-len(st.calls)-200)%40 == 0 {
+			c13ReadLines(c)
+		}
 		c13Sequence(c, st)
 		return
 	}
@@ -545,4 +548,20 @@ func c13Sequence(c *core.Ctx, st *c13State) {
 	if !ok {
 		c.Violation("doc-mismatch:sequence", what+": "+why, text, nil)
 	}
+}
+
+// c13ReadLines: read returns the input line exactly as entered, excluding only the newline
+// (docs/builtins.md): leading / trailing blanks, tabs, NBSP, a carriage return and whitespace-only lines
+// are part of the line; what str2num makes of them follows from that.
+func c13ReadLines(c *core.Ctx) {
+	r := c.Rng
+	pool := []string{" 7", "7 ", "\t x", " ", "", "\u00a0y\u00a0", "a  b", "x\r", "\u2003z", "  ", "42", " true", "é ", "\v1", " - ", "0.5\t"}
+	n := 3 + r.Intn(5)
+	var inputs []string
+	for k := 0; k < n; k++ {
+		inputs = append(inputs, pool[r.Intn(len(pool))])
+	}
+	src := fmt.Sprintf("for i := range %d\n    s := read\n    print i (len s) \"[\"+s+\"]\"\n    n := str2num s\n    print n err\n    b := str2bool s\n    print b err\n    if (len s) > 0\n        print (s[0] == \" \") (s[-1] == \" \") (trim s \" \")\n    end\nend\n", n)
+	c.Event("calls", n)
+	runTextFamily(c, "read-lines", src, inputs)
 }
